@@ -54,10 +54,13 @@ def main(tier, replay=None):
         f_lbug = ex.submit(vlib.tlc, "ListImpl", "List_bug_staleprev.cfg", chk.wd, 2, "2g")
         f_sort = ex.submit(vlib.tlc, "SortImpl", "Sort_impl.cfg", chk.wd, 2, "2g")               # the quicksort transcribed, every input <= 5 over 3 values x lt / le / gt / ge
         f_sbug = ex.submit(vlib.tlc, "SortImpl", "Sort_bug_visitpivot.cfg", chk.wd, 2, "2g")
+        f_sab = ex.submit(vlib.tlc, "SortAbort", "SortAbort.cfg", chk.wd, 2, "2g")                # the same quicksort aborted by a raising comparison: still the same items
+        f_sabbug = ex.submit(vlib.tlc, "SortAbort", "SortAbort_bug_holdaside.cfg", chk.wd, 2, "2g")
         harness = f_lib.result()
         models = {k: f.result() for k, f in fm.items()}
         r_limpl, r_lbug = f_limpl.result(), f_lbug.result()
         r_sort, r_sbug = f_sort.result(), f_sbug.result()
+        r_sab, r_sabbug = f_sab.result(), f_sabbug.result()
     chk.lap("built + TLC exhaustive")
     if replay:
         return runner.replay_file(chk, harness, replay, "SeqTrace", "SeqTrace_seq.cfg", HDR_WORDS)
@@ -74,6 +77,11 @@ def main(tier, replay=None):
         print("MODEL-DRIFT module=SortImpl: %s" % r_sort.invariant, flush=True)
     if r_sbug.ok:
         raise vlib.ToolError("SortImpl does not refute a partition scan that visits the pivot: invariant vacuous")
+    chk.model(r_sab, "SortAbort/SortAbort.cfg")
+    if not r_sab.ok:
+        print("MODEL-DRIFT module=SortAbort: %s" % r_sab.invariant, flush=True)
+    if r_sabbug.ok:
+        raise vlib.ToolError("SortAbort does not refute a pivot held outside the container during the scan: PermAlways vacuous")
     # every case of the sort model on the real library: Arrays and Tuples, sort_by with lt / le / gt / ge
     import json as _json
     cases = list(r_sort.lines("CASE"))
